@@ -22,7 +22,8 @@ mkdir -p tests; [ -n "$DEMO" ] && cp $DEMO tests/demo.rs
 if [ -n "$DEMO" ]; then
   if cargo test --offline --features verif --test demo > /tmp/mc/$NAME.demo_clean.log 2>&1; then echo "demo_clean=pass" >> $R; else echo "demo_clean=FAIL" >> $R; fi
 fi
-git apply $SRC/patch.diff || { echo "apply=FAIL" >> $R; exit 1; }
+PATCH=$SRC/patch.diff; [ -f $SRC/patch.rebased.diff ] && PATCH=$SRC/patch.rebased.diff
+git apply $PATCH || { echo "apply=FAIL" >> $R; exit 1; }
 echo "apply=ok" >> $R
 if cargo build --offline --features verif > /tmp/mc/$NAME.build.log 2>&1; then echo "build_verif=ok" >> $R; else echo "build_verif=FAIL" >> $R; fi
 if [ -n "$DEMO" ]; then
